@@ -103,6 +103,19 @@ def run(ctx):
             seen.add(cs)
             samples.append(sample("128_72", m, impolite=len(seen) % 2 == 0))
     ctx.note("cs5_values_covered", len(seen))
+    # the same for the short LC: messages whose CRC-8 takes the special values a shortcut might test for (0, 1, 0x80, 0xFF) - one
+    # random message in 256 each, so they are searched for (the library's CRC-8 only aims here, TLC recomputes it)
+    from okdmr.dmrlib.etsi.crc.crc8 import CRC8
+    want8, tries = {0: 3, 1: 1, 0x80: 1, 0xFF: 2}, 0
+    while any(want8.values()) and tries < 60000:
+        tries += 1
+        m = bitarray([rng.getrandbits(1) for _ in range(28)])
+        c8 = int(CRC8.calculate(m.copy()))
+        if want8.get(c8) and m.any():
+            want8[c8] -= 1
+            samples.append(sample("68_28", m, impolite=tries % 2 == 0))
+    if any(want8.values()):
+        raise core.MachineryError(f"no short-LC messages with the special CRC-8 values found: {want8}")
     # structured fill: constant messages and messages with one constant row of the transmit matrix (12 / 11 message bits)
     for width, kind_, rowlen in ((28, "68_28", 12), (72, "128_72", 11)):
         for base in (0, 1):
